@@ -6,6 +6,7 @@ import (
 	"errors"
 	"fmt"
 	"io"
+	"net"
 	"strings"
 	"sync"
 	"time"
@@ -187,6 +188,7 @@ type c09pair struct {
 	cancel  context.CancelFunc
 	srvDone chan struct{}
 	msize   int
+	closers []io.Closer
 }
 
 func newC09Pair(bufCap int, rewriteMsize uint32) (*c09pair, error) {
@@ -194,8 +196,16 @@ func newC09Pair(bufCap int, rewriteMsize uint32) (*c09pair, error) {
 	ctx, cancel := context.WithCancel(context.Background())
 	p.cancel = cancel
 	p.cend, p.send = wire.BPipe(bufCap)
-	go func() { p9p.ServeConn(ctx, p.send, p9p.SSession(p.S)); close(p.srvDone) }()
-	var conn = p.cend
+	var conn net.Conn = p.cend
+	var sconn net.Conn = p.send
+	if bufCap == -1 {
+		// the standard library's synchronous pipe instead of the harness's: shows that a
+		// finding on an unbuffered connection is not an artefact of wire.BPipe
+		c, s := net.Pipe()
+		conn, sconn = c, s
+		p.closers = []io.Closer{c, s}
+	}
+	go func() { p9p.ServeConn(ctx, sconn, p9p.SSession(p.S)); close(p.srvDone) }()
 	var err error
 	if rewriteMsize != 0 {
 		tap := wire.NewTap(conn)
@@ -217,6 +227,9 @@ func (p *c09pair) close() {
 	p.cancel()
 	p.cend.Close()
 	p.send.Close()
+	for _, c := range p.closers {
+		c.Close()
+	}
 	mon.AwaitQuiesce(p.srvDone)
 }
 
@@ -291,7 +304,11 @@ func runC09(w *mon.W) {
 	rounds := w.Scale(1, 25)
 	for round := 0; round < rounds; round++ {
 		for _, nc := range []int{2, 4, 5, 8, 16, 64} {
-			for _, capB := range []int{0, 4 << 10, 64 << 10, 1 << 20} {
+			caps := []int{0, 4 << 10, 64 << 10, 1 << 20}
+			if w.Thorough() {
+				caps = append(caps, -1) // net.Pipe
+			}
+			for _, capB := range caps {
 				for _, payload := range []string{"tiny", "4k", "msize"} {
 					cells++
 					if !w.Mine(cells) {
@@ -674,6 +691,9 @@ func c09OneInner(w *mon.W, p *c09pair, g *gen.G, method string) bool {
 // c09Concurrent runs one cell of the concurrent part.
 func c09Concurrent(w *mon.W, n, capB int, payload string) {
 	desc := fmt.Sprintf("concurrent cell: %d callers, connection buffers %d bytes per direction, payload %s", n, capB, payload)
+	if capB == -1 {
+		desc = fmt.Sprintf("concurrent cell: %d callers over net.Pipe, payload %s", n, payload)
+	}
 	w.Case("C09 %s", desc)
 	var p *c09pair
 	var err error
@@ -772,6 +792,9 @@ func c09Concurrent(w *mon.W, n, capB int, payload string) {
 		p.cancel()
 		p.cend.Close()
 		p.send.Close()
+		for _, c := range p.closers {
+			c.Close()
+		}
 		return
 	}
 	if q.Inconclusive {
